@@ -1,6 +1,17 @@
 rc_target("c07_tasks", flavour="asan")
-plan("C07", [T("c07_tasks", 5000, 60000)], min_nt=200,
-     rule="stateful command programs with scripted re-entrant task functions against a pending-table model and a recorded call/invocation history",
-     technique="model-based property testing (rapidcheck): command programs + per-task scripts vs. a pending-table model; invariants (a)-(h) evaluated over the recorded history after every command",
-     level_text="Generated search: thousands of shrinking programs per run.",
-     assumptions=["out-of-memory is fatal by design and not generated"])
+plan("C07", [T("c07_tasks", 20000, 150000)], min_nt=5000,
+     rule="command programs with scripted re-entrant task functions against a pending-table model; non-trivial = re-entrant schedule and in-batch cancel both occur",
+     technique="model-based property testing (rapidcheck): command programs (schedule_now / schedule_future / cancel / run_all / has_tasks / "
+               "clean_up+re-init) whose task functions execute generated scripts (schedule others, re-schedule themselves, cancel pending tasks "
+               "including ones already moved into the running batch); the C callbacks only record a call/invocation history, and the "
+               "invariants exactly-once, never-early, due-tasks-all-run, run-now-first-then-time-order, nothing-scheduled-inside-runs-inside, "
+               "cancel-invokes-before-returning, clean-up-drains-everything and next-task-time are evaluated from it after every command",
+     level_text="Generated search: tens of thousands of shrinking programs per run (<=50 commands, <=16 tasks, <=36 script steps), timestamps "
+                "biased to 0, small equal/increasing/decreasing runs, 2^63 neighbours, UINT64_MAX-1 and UINT64_MAX, under AddressSanitizer "
+                "with a canary allocator; the relative order of timed tasks with equal timestamps is not predicted. "
+                "Sampling, not proof: absence of a violation is not established.",
+     assumptions=["out-of-memory is fatal by design and not generated; therefore the timed_list overflow path (taken only when the heap push fails) is never exercised",
+                  "a task is scheduled only while it is not pending, and cancel_task is issued only for a pending task (both caller obligations, tracked in the model)",
+                  "task functions schedule new work when invoked with CANCELED at most once per generated on-cancel step, so clean_up terminates",
+                  "next-task-time is queried between top-level commands only (inside run_all the detached batch is not visible to the query and the documentation promises nothing there)",
+                  "a run_all / clean_up call that consumes more than 1 s of user CPU time on <=16 tasks is reported as a hang"])
